@@ -113,7 +113,7 @@ def judge(P, case, mobs, iobs, known, sobs=None):
             problem = o
     if problem is None:
         return "ok", ""
-    k = known_match(known, P.id, case, iobs)
+    k = known_match(known, P.id, case, iobs, model_agrees=canon(mobs) == canon(iobs))
     if k:
         return "known", k["id"]
     return "violation", problem
